@@ -970,5 +970,61 @@ pub mod random_policy {
 //@closed memcache/random_policy.rs | impl CacheImplDetails for RandomPolicy
 }
 
+// ---- memcache_server/memc_tcp.rs: only the plumbing of the configured limits (the accept loop is outside reach) ----
+pub mod memc_tcp {
+    use vstd::prelude::*;
+    use super::*;
+    use super::client_handler;
+    use super::store as storage;
+//@items memcache_server/memc_tcp.rs | struct MemcacheServerConfig
+
+    impl MemcacheServerConfig {
+//@fn memcache_server/memc_tcp.rs | impl MemcacheServerConfig | new | ret=r | safety=C10
+        ensures
+            r.item_memory_limit == item_memory_limit && r.connection_limit == connection_limit && r.timeout_secs == timeout_secs && r.listen_backlog == listen_backlog, // @ob C13 server_config.new.limits_plumbed
+//@endfn
+    }
+
+//@fields memcache_server/memc_tcp.rs | struct MemcacheTcpServer | storage,limit_connections,config
+    pub struct MemcacheTcpServer {
+        pub storage: storage::MemcStore,        // R4: Arc<storage::MemcStore>
+        pub limit_connections: Semaphore,       // R4: Arc<Semaphore>
+        pub config: MemcacheServerConfig,
+    }
+
+    impl MemcacheTcpServer {
+//@fn memcache_server/memc_tcp.rs | impl MemcacheTcpServer | get_client_config | ret=r | safety=C10
+        ensures
+            r.item_memory_limit == self.config.item_memory_limit, // @ob C13 tcp_server.client_config.item_limit_plumbed
+            r.rx_timeout_secs == self.config.timeout_secs, // @ob C18 tcp_server.client_config.timeout_plumbed
+//@endfn
+    }
+}
+
+// ---- server/timer.rs: the clock only ever moves forward by one (what the "monotone clock" assumption rests on) ----
+pub mod timer {
+    use vstd::prelude::*;
+    use super::*;
+//@fields server/timer.rs | struct SystemTimer | seconds
+    pub struct SystemTimer {
+        pub seconds: AtomicU64,
+    }
+    impl SystemTimer {
+//@fn server/timer.rs | impl SystemTimer | new | ret=r | safety=C10
+        ensures
+            r.seconds.val() == 0, // @ob C05 timer.new.starts_at_zero
+//@endfn
+//@fn server/timer.rs | impl Timer for SystemTimer | timestamp | ret=r | safety=C10
+        ensures
+            r == self.seconds.val(), // @ob C05 timer.timestamp.reads_clock
+//@endfn
+//@fn server/timer.rs | impl SetableTimer for SystemTimer | add_second | mutself | safety=C10
+        ensures
+            old(self).seconds.val() < 0xffff_ffff_ffff_ffff ==> final(self).seconds.val() == old(self).seconds.val() + 1, // @ob C05 timer.add_second.monotone_by_one
+//@endfn
+    }
+//@closed server/timer.rs | impl SystemTimer | allow=run
+}
+
 } // verus!
 fn main() {}
